@@ -538,14 +538,17 @@ def _some_dependency_actual(r, vb, aop, cv, ct=None):
     l = operand_local(aop)
     o = origins(vb, l) if l is not None else []
     is_not_empty = origin_matches(o, lambda x: x[0] == "call" and x[1].endswith("::is_empty"), through_not=True) and any(x[0] == "not" for x in o)
-    if not is_not_empty:
-        return False, "is not the negated emptiness test of a set"
+    # `set.iter().any(..)`: existential over the recorded dependencies - the same "some dependency" reading as `!set.is_empty()`
+    any_calls = [x for x in o if x[0] == "call" and re.search(r"Iterator>?::any(::<.*>)?$", x[1])]
+    if not is_not_empty and not any_calls:
+        return False, "is neither the negated emptiness test of a set nor an `any` over it"
     ids = set()
-    for x in o:
-        if x[0] == "not":
-            for y in x[1]:
-                if y[0] == "call":
-                    for a in y[3]["args"]:
+    tests = [y for x in o if x[0] == "not" for y in x[1] if y[0] == "call"] + any_calls
+    for y in tests:
+        if True:
+            if True:
+                if True:
+                    for a in y[3]["args"][:1]:
                         at = vb.prov.operand_atoms(a, interproc=False)
                         if ct is None:
                             ids |= _set_ids(at)
@@ -823,28 +826,62 @@ def per_kind_fanout(ctx):
 def relay_owns_receiver(ctx):
     f = ctx.f
     r = ctx.r
+    RX = r"async_std::channel::Receiver<[\w:]*TargetActorOutputMessage>$"
+    # receiver handles stored in a struct: each must be dropped by the shutdown before the first termination message is sent
+    stored = [(a["path"], fd["name"]) for a in f.adt_list for v in a["variants"] for fd in v["fields"] if re.search(RX, fd["ty"])]
+    dropped_fields = set()
+    for (adt, fname) in stored:
+        ok = False
+        where = []
+        term_senders = {b.name for b in f.user_bodies() if any(tyname(s_[2]) == "TerminationMessage" for s_ in send_calls(b))}
+        for raw in f.user_bodies():
+            S = r.V(raw)
+            drops = [bb for bb, t in S.calls() if S.origin(bb) == raw.name and re.search(r"mem::drop(::<.*>)?$", callee_base(t)) and t["args"] and t["args"][0]["k"] == "move"
+                     and not t["args"][0]["place"]["proj"] and re.search(RX, S.locals[t["args"][0]["place"]["local"]]["ty"])
+                     and any(a_[0] == "field" and a_[2] == fname for a_ in S.prov.operand_atoms(t["args"][0], interproc=False))]
+            if not drops:
+                continue
+            # everything in this function that sends (or leads to the sending of) a termination message comes after the drop
+            sends = [s_[0] for s_ in send_calls(S) if tyname(s_[2]) == "TerminationMessage"]
+            sends += [bb for bb, t in S.calls() if callee_base(t) in f.bodies and term_senders & (f.cg.reach([callee_base(t)], cross_spawn=False) | {callee_base(t)})]
+            for bb in drops:
+                where.append(site(S, bb))
+                if sends and all(S.dominates(bb, x) for x in sends if x != bb):
+                    ok = True
+        ctx.check(ok, f"{short(adt)}.{fname}/dropped-before-termination", where or [f"{adt}"],
+                  f"a receiver handle of the bounded actor-output channel is stored in `{short(adt)}.{fname}` and is not dropped before the shutdown sends the termination messages: "
+                  "it keeps the channel open, actors blocked in `send` never wake, and shutdown hangs")
+        if ok:
+            dropped_fields.add(fname)
     clones = []
     for b in f.user_bodies():
         for bb, t in b.calls():
             if re.search(r"<async_std::channel::Receiver<[\w:]*TargetActorOutputMessage> as std::clone::Clone>::clone$", callee_decl(t)):
-                clones.append((b, bb))
-    for (b, bb) in clones:
-        ctx.bad(f"{short(b.name)}/clone", [site(b, bb)], "the receiver of the bounded actor-output channel is cloned: a handle that outlives the relay keeps the channel open, actors blocked in `send` never wake, and shutdown hangs")
-    # the receiver created next to TargetActors is moved into the engine entry
+                # a clone of a stored handle that the shutdown drops first is harmless if it is only lent to the engine (it dies with the relay)
+                src_fields = {pr.get("name") for a_ in b.prov.operand_atoms(t["args"][0], interproc=False) if a_[0] == "field" for pr in [{"name": a_[2]}]}
+                clones.append((b, bb, bool(src_fields & dropped_fields)))
+    for (b, bb, ok) in clones:
+        ctx.check(ok, f"{short(b.name)}/clone", [site(b, bb)], "the receiver of the bounded actor-output channel is cloned: a handle that outlives the relay keeps the channel open, actors blocked in `send` never wake, and shutdown hangs")
     ma = r.main_async()
-    created = [(bb, t) for bb, t in ma.calls() if t["callee"]["base"].endswith("channel::bounded") and t["callee"]["gargs"] and tyname(t["callee"]["gargs"][0]) == "TargetActorOutputMessage"]
-    if not created:
-        created = [(bb, t) for bb, t in ma.calls() if t["callee"]["base"].endswith("channel::unbounded") and t["callee"]["gargs"] and tyname(t["callee"]["gargs"][0]) == "TargetActorOutputMessage"]
-    ctx.need(created, "creation of the actor-output channel in main")
     relays = {r.fn_of(x).name for x in r.relays()}
-    for bb, t in created:
-        fl = ma.prov.flows_forward(t["dest"]["local"])
-        recv_locals = {l for l in fl if re.match(r"async_std::channel::Receiver<[\w:]*TargetActorOutputMessage>$", ma.locals[l]["ty"])}
-        moved = False
-        for cb, ct in ma.calls():
-            cn = callee_base(ct)
-            if cn in f.bodies and relays & f.cg.reach([cn], cross_spawn=False):
-                for a in ct["args"]:
-                    if a["k"] == "move" and a["place"]["local"] in fl and "Receiver" in ma.locals[a["place"]["local"]]["ty"]:
-                        moved = True
-        ctx.check(moved and not clones, "main/receiver-moved-into-engine", [site(ma, bb)], "the receiver of the actor-output channel is not handed over (moved) to the engine")
+    def is_creation(t):
+        return re.search(r"channel::(bounded|unbounded)$", t["callee"]["base"]) and t["callee"]["gargs"] and tyname(t["callee"]["gargs"][0]) == "TargetActorOutputMessage"
+    created = [(bb, t) for bb, t in ma.calls() if is_creation(t) and ma.origin(bb) == ma.name]
+    if created:
+        # the receiver created next to TargetActors is moved into the engine entry
+        for bb, t in created:
+            fl = ma.prov.flows_forward(t["dest"]["local"])
+            moved = False
+            for cb, ct in ma.calls():
+                cn = callee_base(ct)
+                if cn in f.bodies and relays & f.cg.reach([cn], cross_spawn=False):
+                    for a in ct["args"]:
+                        if a["k"] == "move" and a["place"]["local"] in fl and "Receiver" in ma.locals[a["place"]["local"]]["ty"]:
+                            moved = True
+            ctx.check(moved and all(ok for _, _, ok in clones), "main/receiver-moved-into-engine", [site(ma, bb)], "the receiver of the actor-output channel is not handed over (moved) to the engine")
+    else:
+        anywhere = [(b, bb) for b in f.user_bodies() for bb, t in b.calls() if is_creation(t)]
+        ctx.need(anywhere, "creation of the actor-output channel")
+        # created elsewhere (e.g. by the actor registry): then the receiver lives in a struct, and the stored-handle obligation above applies
+        ctx.check(bool(stored) and all(fn in dropped_fields for _, fn in stored), "receiver-owner", [site(b, bb) for b, bb in anywhere],
+                  "the actor-output channel is created outside main and its receiver is neither moved into the engine nor a stored handle that the shutdown drops first")
